@@ -173,6 +173,11 @@ class Ctx:
                 if nb2 is not nb:
                     nb2.inlined_from = set(getattr(nb, 'inlined_from', set())) | set(getattr(nb2, 'inlined_from', set()))
                     nb = nb2
+            if desugar:
+                from .inline import thread_jumps
+                nb4 = thread_jumps(nb)
+                if nb4 is not nb:
+                    nb = nb4
             if b.path in split_targets:
                 from .inline import split_decisions
                 nb3 = split_decisions(nb)
@@ -196,7 +201,7 @@ class Ctx:
             return None
         used |= mine
         # closures consumed by a desugared adaptor are analysed in place only
-        gone = {u for u in mine if not u.startswith('decision-split:') and crate.body(u) is not None and crate.body(u).kind == 'Closure'}
+        gone = {u for u in mine if not u.startswith(('decision-split:', 'jump-threading:')) and crate.body(u) is not None and crate.body(u).kind == 'Closure'}
         bodies = [bj for bj in bodies if bj['path'] not in gone]
         for bj in bodies:
             for blk in bj['blocks']:
